@@ -335,6 +335,8 @@ class Interp:
                 if isinstance(r, (Func, Class)):
                     return r
             return Sym(f"{base.name}.{attr}")
+        if isinstance(base, int) and not isinstance(base, bool) and attr in ("bit_length", "bit_count"):
+            return _PyMethod(base, attr)
         if isinstance(base, dict) and attr in ("keys", "values", "items", "get"):
             return Sym(f"dictmethod:{attr}"), base  # handled in call
         if isinstance(base, list) and attr in ("append", "extend", "insert", "pop", "remove", "clear", "index", "count", "copy", "reverse"):
@@ -387,6 +389,30 @@ class Interp:
             return PartialV(args[0], args[1:], kwargs)
         if name in ("operator.itemgetter", "operator.attrgetter") and len(args) == 1 and not kwargs and isinstance(args[0], (int, str)):
             return ItemGetter(name.rsplit(".", 1)[1], args[0])
+        if name in ("bisect.bisect_left", "bisect.bisect_right", "bisect.bisect") and len(args) == 2 and not kwargs and isinstance(args[0], (list, tuple)) and all(isinstance(x, (int, float, Fraction)) and not isinstance(x, bool) for x in list(args[0]) + [args[1]]):
+            import bisect
+
+            return getattr(bisect, name.split(".")[1])(list(args[0]), args[1])
+        if name == "numpy.dtype" and len(args) == 1 and isinstance(args[0], Sym):
+            t = args[0].name.split(".")[-1].split(":")[-1]
+            bits = {"uint8": 8, "uint16": 16, "uint32": 32, "uint64": 64, "int8": 8, "int16": 16, "int32": 32, "int64": 64, "float32": 32, "float64": 64, "bool_": 8}.get(t)
+            if bits:
+                import types
+
+                return types.SimpleNamespace(itemsize=bits // 8, name=t, kind="u" if t.startswith("uint") else "i" if t.startswith("int") else "f" if t.startswith("float") else "b", type=args[0])
+        # predicates on concrete numbers
+        if name in ("numpy.isnan", "math.isnan", "numpy.isinf", "math.isinf", "numpy.isfinite", "math.isfinite") and len(args) == 1 and not kwargs and isinstance(args[0], (int, float, Fraction)) and not isinstance(args[0], bool):
+            import math
+
+            return getattr(math, name.rsplit(".", 1)[1])(float(args[0]))
+        if name in ("numpy.isclose", "math.isclose") and len(args) == 2 and all(isinstance(a, (int, float, Fraction)) and not isinstance(a, bool) for a in args):
+            import math
+
+            a_, b_ = float(args[0]), float(args[1])
+            if name.startswith("numpy"):
+                rtol, atol = float(kwargs.get("rtol", 1e-5)), float(kwargs.get("atol", 1e-8))
+                return abs(a_ - b_) <= atol + rtol * abs(b_)
+            return math.isclose(a_, b_, rel_tol=float(kwargs.get("rel_tol", 1e-9)), abs_tol=float(kwargs.get("abs_tol", 0.0)))
         # pure scalar mathematics on concrete representatives
         mod, _, fn = name.rpartition(".")
         if mod in ("math", "numpy") and fn in _MATH_FUNCS and args and not kwargs and all(isinstance(a, (int, float, Fraction)) and not isinstance(a, bool) for a in args):
